@@ -117,10 +117,13 @@ func VHC11DivFault() {
 	slot := c11Slots[vh.Choose("slot", len(c11Slots))]
 	// the divisor comes from a small table (that / fails exactly for a zero divisor, for
 	// every double, is C05's); what is decided here is what the fault does to the run
-	z := vh.FloatFrom("z", []float64{0, math.Copysign(0, -1), 1, 2.5, 4})
-	prog := strings.ReplaceAll(slot, "@", []string{"1/$.z", "7 % $.z"}[vh.Choose("op", 2)])
+	z := vh.FloatFrom("z", []float64{0, math.Copysign(0, -1), 1, 2.5, 4, 0.5, 0.25})
+	opi := vh.Choose("op", 2)
+	prog := strings.ReplaceAll(slot, "@", []string{"1/$.z", "7 % $.z"}[opi])
 	out, k := runProg(prog, c11Doc(map[string]any{"z": z}))
-	if z == 0 {
+	// / fails for a zero divisor; % works on the integer parts, so it fails when the
+	// divisor's integer part is zero - as a runtime error, never as a crash
+	if z == 0 || (opi == 1 && z > -1 && z < 1) {
 		vh.Reach("fault fired")
 		vh.Assert(k == ErrRuntime, "C11: a failing operation stops the run with a runtime error, whatever slot it sits in: "+lbl(slot))
 		vh.Assert(c11Stopped(out), "C11: output before the fault is kept, nothing is printed after it: "+lbl(slot))
@@ -166,6 +169,12 @@ var c11Statements = []string{
 	"x = 1; x /= 0",
 	"x = [1]; x += [1] < 2",
 	"x = [1]; y = x == x",
+	// faults whose position is that of a keyword literal
+	"x = 'a' ~ null",
+	"null.seen = 1",
+	"x = true()",
+	"x = match ([1]) { true => 1, false => 2 }",
+	"x = [1] < false",
 	"for (q in 5) { print 'loop' }",
 	"for (q in null) { print 'loop' }",
 	"printf('%s', 5)",
@@ -258,7 +267,7 @@ func VHC11SyntaxAnywhere() {
 	if pos > len(toks) {
 		return
 	}
-	bad := string([]byte{vh.ByteFrom("bad", "@?^`\\$#")})
+	bad := string([]byte{vh.ByteFrom("bad", "@?^`\\\x00\x7f$#")})
 	if bad == "$" || bad == "#" {
 		return // `$` is a token and `#` begins a comment: not illegal characters
 	}
